@@ -1,15 +1,15 @@
 # constructor name -> list of arg names
 CT = [
  ('idle',[]),('nAlloc0',[]),('nAlloc1',['b0']),('nLink',['b0','b1']),('nRet',[]),
- ('pLoad',['v']),('pCas',['v','w']),('pSet',['v','b','i']),('pAlloc',['b']),('pWait',['b','nn']),('pLink',['nx','nn']),('pTail',['nx']),
- ('oBlk',['d']),('oIdx',['d','hb']),('oTry',['d','hb','pi']),('oTail',['d','hb','pi']),('oSpin',['d','hb','pi']),('oStore',['d','hb','pi','v']),
+ ('pLoad',['v']),('pCas',['v','w']),('pWrite',['v','b','i']),('pSet',['v','b','i']),('pAlloc',['b']),('pWait',['b','nn']),('pLink',['nx','nn']),('pTail',['nx']),
+ ('oBlk',['d']),('oIdx',['d','hb']),('oTry',['d','hb','pi']),('oTail',['d','hb','pi']),('oSpin',['d','hb','pi']),('oRead',['d','sp','hb','pi']),('oStore',['d','hb','pi','v']),
  ('rFree',['hb','k']),('rNext',['hb','k']),('rHead',['nx','k']),
- ('bIdx',[]),('bBlk',['pi']),('bFast',['hb','ci','acc']),('bStore',['hb','ni','acc']),('bTail',['hb','pi']),('bCopy',['hb','ci','ce','acc']),
- ('kIdx',[]),('kTail',['pi']),('kBlk',['pi']),('kSpin',['hb','pi']),
+ ('bIdx',[]),('bBlk',['pi']),('bFast',['hb','ci','acc']),('bFastRd',['hb','ci','acc']),('bStore',['hb','ni','acc']),('bTail',['hb','pi']),('bCopy',['hb','ci','ce','acc']),('bCopyRd',['hb','ci','ce','acc']),
+ ('kIdx',[]),('kTail',['pi']),('kBlk',['pi']),('kSpin',['hb','pi']),('kRead',['hb','pi']),
  ('lIdx',['eb']),('lTail',['eb','pi']),
  ('dHead',[]),('dTail',['hb']),('dNext',['b']),('dFree1',['b','nx']),('dFree2',['b']),('dFree3',['ob']),('ret',['r']),
 ]
-TY = {'b0':'Bid','b1':'Bid','v':'Nat','w':'Word','b':'Bid','i':'Nat','nn':'Bid','nx':'Bid','d':'Bool','hb':'Bid','pi':'Nat','k':'K',
+TY = {'b0':'Bid','b1':'Bid','v':'Nat','w':'Word','b':'Bid','i':'Nat','nn':'Bid','nx':'Bid','d':'Bool','sp':'Bool','hb':'Bid','pi':'Nat','k':'K',
       'ci':'Nat','acc':'List Nat','ni':'Nat','ce':'Nat','eb':'Bool','ob':'Bid','r':'Ret'}
 def pat(c,args): return '.'+c+''.join(' '+a for a in args)
 def gen_def(name, ty, default, cases, doc=None):
